@@ -103,6 +103,9 @@ def gen_case(rng, index, tier):
     case['restore_from'] = rng.choice(['orig', 'orig', 'ancestor', 'ancestor',
                                        'root', 'arg-path', 'arg-parent'])
     case['sort'] = rng.choice([None, 'date', 'path', 'none'])
+    # --overwrite on a destination that is free (its parent possibly gone):
+    # the option changes nothing about a restore that overwrites nothing
+    case['restore_overwrite'] = rng.random() < 0.3
     return case
 
 
@@ -232,6 +235,9 @@ def run_case(case):
             rargs += ['--sort', case['sort']]
         if tdo:
             rargs += ['--trash-dir', tdo]
+        if case.get('restore_overwrite'):
+            rargs.append('--overwrite')
+            obs['restores_with_overwrite'] = 1
         parent_real = os.path.dirname(want_loc)
         cwd = w.R
         if frm == 'orig' and os.path.isdir(parent_real):
